@@ -85,11 +85,11 @@ def listed_mask(name):
 
 
 BOUNDS = {
-    "quick": "masks: every mask (>=1 unmasked pixel) of every shape with H,W <= 4 and H*W <= 9 at kernel level and H,W <= 3, H*W <= 6 at class/decorator level "
+    "quick": "masks: every mask (>=1 unmasked pixel) of every shape with H,W <= 3 (and 1x4, 4x1) at kernel level and H,W <= 3, H*W <= 6 at class/decorator level "
              "(one path per mask) plus the listed 3x3/3x5/4x4/5x5 masks (ring, full, diagonal, edge-touching, hole, corners); sub-size maps (concrete): uniform 1,2,3 "
              "and per-pixel maps mixing {1,2,3}, {2,3} and all-ones; geometry (one configuration per enumerated case, cycled; both-symbolic on a listed subset incl. all masks of 3x3 kernels / 2x3 sampler / 3x2 decorator, single-pixel iterate): symbolic origin with concrete anisotropic scales "
              "(1.5,3.0)/(0.75,6.0)/(3.0,1.5), or symbolic anisotropic scales in [1/8,8] with origin (0,0), or both symbolic (affine coefficients concrete there); sub-values and affine coefficients: symbolic reals; user function: uninterpreted f(y,x); "
-             "decorator routes: Grid2D.from_mask / Grid2D.uniform / Grid2D(values=symbolic) / GridsDataset.uniform / GridsDataset.pixelization / Grid2DOverSampled; "
+             "each sampler/decorator case runs a 3-step history (two origins, two scale pairs) in one process; decorator routes: Grid2D.from_mask / Grid2D.uniform / Grid2D(values=symbolic) / GridsDataset.uniform / GridsDataset.pixelization / Grid2DOverSampled; "
              "iterate: schedules [2,3],[2,4],[3,2],[2,3,4],[2,2,3] on listed masks with 1-2 unmasked pixels (sampler and decorator routes), fractional accuracy symbolic in (0,1], "
              "absolute tolerance unset or symbolic >= 0",
     "thorough": "as quick with every mask of shapes H,W <= 4, H*W <= 12 (kernels) / H,W <= 3 (classes, decorator), uniform sub-size 4 and maps mixing {1,2,4}, "
@@ -113,6 +113,12 @@ ASSUMPTIONS = [
     "iterate: 0 < fractional_accuracy <= 1, relative_accuracy >= 0; divisions lower/higher add 'higher != 0' to the path (engine division domain)",
     "iterate, masks with 2 pixels: a per-pixel obligation is first decided under the sub-set of the path condition that shares user-function values "
     "with it (cone of influence; dropping hypotheses is sound for 'holds'), and under the full path condition only if that is not unsat",
+    "every sampler / decorator body is a three-step history in one process: A (origin, scales), B (same bits, scales, sub-sizes, another symbolic origin), "
+    "C (B's origin, other scales); all clauses are checked for A, B and C.  Iterate bodies are preceded by uniform over-samplings of the same mask at a "
+    "shifted origin for every level of the schedule",
+    "one body execution = one fresh interpreter: module-level mutable state (dicts, lists, sets, lru caches) of autoarray.operators.over_sampling.*, "
+    "structures.grids.uniform_2d, structures.decorators, dataset.grids, mask.mask_2d is restored to its import-time content before each body",
+    "proxies get a constant __hash__ (POST_INSTALL) so that dict / tuple keys holding pixel scales or sub sizes are compared with the symbolic == (path decision)",
     "iterate counterexamples are preferably taken 1e-4 away from every decision boundary of the scheme so that the float64 replay is stable; the "
     "'holds' verdicts themselves carry no such margin",
 ]
@@ -794,6 +800,8 @@ def cases(tier):
     for H in range(1, 5):
         for W in range(1, 5):
             if H * W <= capk:
+                if quick and H * W == 8:
+                    continue             # 2x4 / 4x2 only in the thorough tier
                 if quick:
                     pats = ["u2", "mA"] if H * W >= 8 else ["u1", "u2", "u3", "mA", "mB"]
                 else:
@@ -821,7 +829,7 @@ def cases(tier):
                     if big and p != "mA" and i % 2 != (H + (1 if H * W == 9 else 0)) % 2:
                         continue
                     out.append(("case_sampler", {"H": H, "W": W, "pattern": p, "geom": GEOM_CYCLE[(i + H + W) % 4]},
-                                {"split": 2} if H * W >= 9 else None))
+                                {"split": 2} if H * W >= 9 else ({"split": 1} if big else None)))
                 for i, (p, route) in enumerate(dec + ([] if quick else [("mC", "from_mask"), ("u4", "from_mask")])):
                     if big and i % 2 != H % 2:
                         continue
@@ -832,7 +840,8 @@ def cases(tier):
             out.append(("case_sampler", {"H": 0, "W": 0, "pattern": p, "geom": GEOM_CYCLE[(i + j + 1) % 4], "mask_name": mn}))
             out.append(("case_decorator", {"H": 0, "W": 0, "pattern": p, "geom": GEOM_CYCLE[(i + j) % 4], "route": "from_mask", "mask_name": mn}))
     out.append(("case_sampler", {"H": 2, "W": 2, "pattern": "mA", "geom": "both"}, {"timeout_ms": 90000}))
-    out.append(("case_sampler", {"H": 2, "W": 3, "pattern": "u3", "geom": "both"}, {"timeout_ms": 90000, "split": 2}))
+    if not quick:
+        out.append(("case_sampler", {"H": 2, "W": 3, "pattern": "u3", "geom": "both"}, {"timeout_ms": 90000, "split": 2}))
     for (hh, ww, p, route) in [(2, 2, "mB", "from_mask"), (3, 2, "mA", "from_mask"), (2, 3, "u2", "oversampled"), (2, 2, "m2", "values"), (1, 3, "m1", "dataset")]:
         out.append(("case_decorator", {"H": hh, "W": ww, "pattern": p, "geom": "both", "route": route}, {"timeout_ms": 90000}))
     # (4) iterative scheme
